@@ -42,12 +42,16 @@ class XALAN_TRANSFORMER_EXPORT XercesDOMParsedSourceHelper : public XalanParsedS
 {
 public:
 
-    XercesDOMParsedSourceHelper(MemoryManager& theManager XALAN_DEFAULT_CONSTRUCTOR_MEMMGR);
+    XercesDOMParsedSourceHelper(
+            MemoryManager&              theManager XALAN_DEFAULT_CONSTRUCTOR_MEMMGR,
+            const XercesParserLiaison*  theSourceLiaison = 0);
 
     ~XercesDOMParsedSourceHelper();
 
     static XercesDOMParsedSourceHelper*
-    create(MemoryManager& theManager);
+    create(
+            MemoryManager&              theManager,
+            const XercesParserLiaison*  theSourceLiaison = 0);
 
     virtual DOMSupport&
     getDOMSupport();
